@@ -248,6 +248,9 @@ def run(ctx):
         c['scoped'] = (o == 'true')
     for c, o in zip(live, lib.run_model_sharded(['okc08 ' + c['toks'] for c in live])):
         c['okc08'] = (o == 'true')
+    for c, o in zip(live, lib.run_model_sharded(['okc08nz ' + c['toks'] for c in live])):
+        c['okc08nz'] = (o == 'true')
+    rejected = []
     P.run_gen(cases)
     P.run_encode(cases)
     P.run_decode(cases)
@@ -262,6 +265,10 @@ def run(ctx):
         ctx.dist['ok_c08 (hypothesis of the proved theorem holds)' if c.get('okc08') else 'not ok_c08'] += 1
         if c.get('scoped') and not c.get('okc08'):
             ctx.dist['scoped but not ok_c08'] += 1
+            if c.get('okc08nz'):
+                ctx.dist['scoped, not ok_c08, but ok_c08_nz (bitmap / class 33 under a delayed replication: D19, D28)'] += 1
+            else:
+                rejected.append(c['ids'])
         ctx.count((tuple(c['ids']), c['seed']), True)
         k_cache = rng.choice([0, 1, 2, 5])
         ctx.dist['cache-max-%d' % k_cache] += 1
@@ -272,6 +279,7 @@ def run(ctx):
                                                      or zero_count_bitmap(di)):
             good.append((c, di))
         ctx.sample({'ids': c['ids'], 'cache_max': k_cache}, limit=3)
+    ctx.extra['scoped_rejected_by_ok_c08_and_ok_c08_nz'] = rejected[:40]
     # save / load
     for c, di in good[:ctx.n(40, 1500)]:
         save_load_case(ctx, c, di)
